@@ -271,14 +271,14 @@ def c07(tier):
 
 def c08(tier):
     jobs = [Job("h_c08::commit_with_array_conflict", (6, 0), dict(S2), budget_s=3000, validate=30, native_timeout=10)]
-    for kind in range(6):
+    for kind in range(7):
         jobs.append(Job("h_c08::all_operations", (kind, 4 if tier == "quick" else 8), dict(S2), budget_s=3000, validate=10, native_timeout=10))
     if tier != "quick":
         jobs.append(Job("h_c08::commit_with_array_conflict", (10, 0), dict(S2), budget_s=6000, validate=30, native_timeout=10))
     return dict(jobs=jobs, bounds={"scenario": "base document, two replicas, one concurrent edit each (documents chosen among 6 / 10 element orders), exchange, further edit, commit, then stage / snapshot / unstage / refresh / reload / getters",
                                    "all_operations": "every public operation (read with and without root, get_value / get_winner / get_conflicting / get_parent_revision per object, in_conflict, has_staging, get_anchors, get_delta, "
-                                                     "stage, meld, stage_full_snapshot, replay_stage, reload, update, delete_object, commit, unstage, refresh) in six kinds of state: empty, staged (with deletions), committed with a "
-                                                     "deleted object, object + array conflicts pending, the same with staged resolutions, after time travel"},
+                                                     "stage, meld, stage_full_snapshot, replay_stage, reload, update, delete_object, commit, unstage, refresh) in seven kinds of state: empty, staged (with deletions), committed with a "
+                                                     "deleted object, object + array conflicts pending, the same with staged resolutions, after time travel, array dropped on one replica and edited on the other"},
                 assumptions=["single client thread; worker-pool sizes and real rayon interleavings are not modelled (sequentialised par_iter)",
                              "a lock re-acquired by the thread that holds it is reported as non-termination (std Mutex/RwLock are not re-entrant)"],
                 note="melda.rs operations from MIR with the lock model")
